@@ -650,6 +650,59 @@ func checkChanDiscipline(c *Ctx, rule string, scope map[*ssa.Function]bool, li *
 }
 
 func recoverGuarded(fn *ssa.Function) bool {
+	if recoverGuardedHere(fn) {
+		return true
+	}
+	// a phase helper the reference tree does not have, called (not started with `go`) only from functions whose
+	// deferred recover is already registered when they call it: a panic in the helper unwinds into that guard
+	if !gNewFuncs[fn] || fn.Parent() != nil {
+		return false
+	}
+	sites := gCallSitesOf[fn]
+	if len(sites) == 0 {
+		return false
+	}
+	for _, s := range sites {
+		cl, isCall := s.(*ssa.Call)
+		if !isCall || cl.Parent() == fn || !recoverGuardedHere(cl.Parent()) {
+			return false
+		}
+		// the guard is registered before the call
+		dominated := false
+		for _, b := range cl.Parent().Blocks {
+			for _, in := range b.Instrs {
+				if d, ok := in.(*ssa.Defer); ok && deferRecovers(d) && instrDominates(d, cl) {
+					dominated = true
+				}
+			}
+		}
+		if !dominated {
+			return false
+		}
+	}
+	return true
+}
+
+func deferRecovers(d *ssa.Defer) bool {
+	found := false
+	look := func(f *ssa.Function) {
+		if f == nil {
+			return
+		}
+		allInstrs(f, func(i2 ssa.Instruction) {
+			if calleeID(i2) == "builtin.recover" {
+				found = true
+			}
+		})
+	}
+	if cl, ok := d.Call.Value.(*ssa.MakeClosure); ok {
+		look(cl.Fn.(*ssa.Function))
+	}
+	look(d.Call.StaticCallee())
+	return found
+}
+
+func recoverGuardedHere(fn *ssa.Function) bool {
 	found := false
 	allInstrs(fn, func(in ssa.Instruction) {
 		if d, ok := in.(*ssa.Defer); ok {
